@@ -100,6 +100,30 @@ Proof.
 Qed.
 Print Assumptions C13_payload.
 
+(* Matching payload, request direction.  If send_request(.., (len, tag), fallback fb) returned rid,
+   carrier c was handed to rid's future and a request frame (l, t) reached the remote end of c,
+   then that frame is the request given to send_request — or the fallback request when the
+   substream was negotiated with the fallback name.  Together with C13_payload: the response
+   delivered with rid is the one the remote supplied on the very carrier that carried rid's request. *)
+Theorem C13_request_wire :
+  forall (cf : cfg) (evs : list ev) pre p d (len tag : N) fb o tg post (rid c l t : N),
+    run_steps cf (init_pst, init_env) evs = pre ++ (ESend p d len tag fb, o, tg) :: post ->
+    In (OSent rid) o ->
+    In (OBind c rid) (outs_of (run_steps cf (init_pst, init_env) evs)) ->
+    In (OWire c l t) (outs_of (run_steps cf (init_pst, init_env) evs)) ->
+    (l, t) = (len, tag) \/ exists n fl ft, fb = Some (n, fl, ft) /\ (l, t) = (fl, ft).
+Proof. exact request_wire. Qed.
+Print Assumptions C13_request_wire.
+
+(* send_response_with_feedback: the feedback receiver gets () only in a step in which a response
+   frame went out on an inbound carrier. *)
+Theorem C13_feedback :
+  forall (cf : cfg) (evs : list ev) e o tg (irid : N),
+    In (e, o, tg) (run_steps cf (init_pst, init_env) evs) -> In (OFeed irid true) o ->
+    exists c l t, In (OWireR c l t) o.
+Proof. exact feedback_only_after_wire. Qed.
+Print Assumptions C13_feedback.
+
 (* The responder sees each inbound substream once: a stimulus that yields a RequestReceived is an
    inbound request frame (len, tag) arriving on a carrier, it yields exactly that one RequestReceived (possibly followed by the
    note which fallback name was negotiated) with exactly those bytes, and no two such stimuli of a run are on the same carrier. *)
